@@ -79,6 +79,15 @@ func startPool(s *kernel.Sim, maxHosts int, persist bool) *l2Pool {
 	seams.InstallServeHook(s, func(handler, p, storeDriver interface{}, bind string) error {
 		lp.l = seams.NewListener(s, "192.0.2.1:8080")
 		lp.l.Sizes = sizes
+		// teardown hooks run last-registered first: before the listener closes (and runPool returns and closes
+		// the database) the connections are reset and the server's goroutines finish their clean-up
+		// (CloseRemote may read the store; badger blocks readers for ever once closed)
+		s.OnTeardown(func() {
+			for _, c := range lp.l.Conns {
+				c.Reset()
+			}
+			s.Settle()
+		})
 		lp.p = p.(*pool.VipnodePool)
 		lp.srv = &http.Server{Handler: handler.(http.Handler)}
 		close(lp.ready)
@@ -552,13 +561,28 @@ func runL2Agent(s *kernel.Sim) {
 			}
 			return n.LastSeen
 		}
+		// the byte-level connection may deliver a message in many small pieces, each a scheduling decision:
+		// the clock is only advanced while nothing is in flight (the statement is about when keep-alives are
+		// sent, a slow network is not the agent's doing)
+		s.SetYield("drain", 1)
+		drain := func() {
+			for i := 0; i < 50000; i++ {
+				// (look only after a scheduling decision: then everything else is at rest)
+				s.Yield("drain", "director")
+				if s.LinksIdle() {
+					break
+				}
+			}
+		}
 		waitFor := func(cond func() bool) bool {
 			for i := 0; i < 400; i++ {
+				drain()
 				if cond() {
 					return true
 				}
 				s.Sleep("director", 5*time.Millisecond)
 			}
+			drain()
 			return cond()
 		}
 		if !waitFor(func() bool { return !seen().IsZero() }) {
@@ -594,10 +618,12 @@ func runL2Agent(s *kernel.Sim) {
 		}
 		// count the check-ins over the next k intervals, looking once per simulated second (a round
 		// needs a few scheduler steps to travel, so instants are not compared, only the count)
-		k := 2 + s.TaskChoose("director", "k", 3)
+		k := 2 + s.TaskChoose("director", "k", 5)
+		loopStart := time.Now()
 		last, count := seen(), 0
 		for t := time.Duration(0); t < time.Duration(k)*d; t += time.Second {
 			s.Sleep("director", time.Second)
+			drain()
 			if cur := seen(); cur.After(last) {
 				last = cur
 				count++
@@ -610,6 +636,35 @@ func runL2Agent(s *kernel.Sim) {
 			}
 			s.Violate("cadence", key, "interval %s: %d check-ins in %d intervals", d, count, k)
 			return
+		}
+		// when the keep-alives were *sent*: messages the agent wrote on its pool connection after the loop
+		// started (a keep-alive is several hundred bytes; writes at one instant are one message).  A round
+		// trip takes up to a second here (the clock moves in one-second steps while bytes are in flight), well
+		// below the interval, so consecutive sends must be one interval apart whatever the round trips took.
+		if conns := lp.l.Conns; len(conns) > 0 {
+			var sends []time.Time
+			var cur time.Time
+			size := 0
+			flush := func() {
+				if size >= 400 && cur.After(loopStart) {
+					sends = append(sends, cur)
+				}
+			}
+			for _, w := range conns[len(conns)-1].WriteLog() {
+				if w.At.Sub(cur) > time.Millisecond {
+					flush()
+					cur, size = w.At, 0
+				}
+				size += w.N
+			}
+			flush()
+			for i := 1; i < len(sends); i++ {
+				if gap := sends[i].Sub(sends[i-1]); gap < d-100*time.Millisecond || gap > d+100*time.Millisecond {
+					s.Violate("cadence", "consecutive keep-alives are not sent one configured interval apart", "interval %s: keep-alive %d sent %s after the previous one (round trips took up to a second)", d, i+1, gap)
+					return
+				}
+			}
+			s.ProbeN("c20.l2_keepalive_sends_timed", len(sends))
 		}
 		runner.Agent.Stop()
 		s.Sleep("director", time.Second)
